@@ -717,7 +717,37 @@ func runDigester(c *core.Ctx) {
 				}
 			}
 		})
-		if commitOp == nil {
+		var commitBlock *ssa.BasicBlock
+		if commitOp != nil {
+			commitBlock = commitOp.Block()
+		} else {
+			// the insert may sit in a closure the commit method hands to a wrapper that runs it under the repository lock
+			// (mr.withLock(func() {…})): the hand-over is then the commit's place in the method
+			for _, af := range fn.AnonFuncs {
+				an.Instrs(af, func(in ssa.Instruction) {
+					switch x := in.(type) {
+					case *ssa.Call:
+						if an.IsFunc(x, "os", "Rename") {
+							commitOp, nameVal = x, x.Call.Args[1]
+						}
+					case *ssa.MapUpdate:
+						if _, p := accessPath(x.Map); len(p) > 0 && p[len(p)-1] == "blobs" {
+							commitOp, nameVal = x, x.Key
+						}
+					}
+				})
+				if commitOp != nil && commitBlock == nil {
+					an.Calls(fn, func(call ssa.CallInstruction) {
+						for _, a := range call.Common().Args {
+							if mc, ok := an.Strip(a).(*ssa.MakeClosure); ok && mc.Fn == ssa.Value(af) {
+								commitBlock = call.Block()
+							}
+						}
+					})
+				}
+			}
+		}
+		if commitOp == nil || commitBlock == nil {
 			c.Fail("commit:"+un, fn.Pos(), "no rename / blob-map insert found in the commit method")
 			continue
 		}
@@ -747,7 +777,7 @@ func runDigester(c *core.Ctx) {
 						neqSucc = 1
 					}
 					tb := b.Succs[neqSucc]
-					if tb != commitOp.Block() && !an.BlockReaches(tb, commitOp.Block()) {
+					if tb != commitBlock && !an.BlockReaches(tb, commitBlock) {
 						cmpOK = true
 					}
 				}
@@ -755,7 +785,7 @@ func runDigester(c *core.Ctx) {
 		}
 		if !cmpOK {
 			// the comparison may be made by a helper of the upload type whose success the commit is guarded by
-			for _, g := range an.GuardingEdges(commitOp.Block()) {
+			for _, g := range an.GuardingEdges(commitBlock) {
 				for _, fe := range an.RefusedHelperEdges(g) {
 					x, y, op, ok := an.CmpTest(fe.If())
 					if !ok || (op != token.EQL && op != token.NEQ) {
@@ -1403,18 +1433,33 @@ func init() {
 				var commit ssa.Instruction
 				var target ssa.Value // map (memory) or destination path (directory)
 				var tkey ssa.Value   // map key
-				an.Instrs(fn, func(in ssa.Instruction) {
-					switch x := in.(type) {
-					case *ssa.MapUpdate:
-						if an.NamedOf(an.Deref(fieldOwnerType(x.Map))) == fam.Repo {
-							commit, target, tkey = in, x.Map, x.Key
+				find := func(f *ssa.Function) {
+					an.Instrs(f, func(in ssa.Instruction) {
+						switch x := in.(type) {
+						case *ssa.MapUpdate:
+							if an.NamedOf(an.Deref(fieldOwnerType(x.Map))) == fam.Repo {
+								commit, target, tkey = in, x.Map, x.Key
+							}
+						case ssa.CallInstruction:
+							if _, isDefer := x.(*ssa.Defer); !isDefer && an.IsFunc(x, "os", "Rename") {
+								commit, target = in, x.Common().Args[1]
+							}
 						}
-					case ssa.CallInstruction:
-						if _, isDefer := x.(*ssa.Defer); !isDefer && an.IsFunc(x, "os", "Rename") {
-							commit, target = in, x.Common().Args[1]
+					})
+				}
+				find(fn)
+				if commit == nil {
+					// the commit may sit in a closure handed to a wrapper that runs it under the repository lock: the
+					// closure is then the frame in which the commit and any test of its target are looked at
+					for _, af := range fn.AnonFuncs {
+						if commit == nil {
+							find(af)
+							if commit != nil {
+								fn = af
+							}
 						}
 					}
-				})
+				}
 				if commit == nil {
 					c.Fail(key, fn.Pos(), "%s neither stores the blob into the repository's blob map nor renames the temporary file onto the blob's name: a completed upload does not become a blob", c.P.FuncName(fn))
 					continue
